@@ -12,8 +12,7 @@
   Non-canonical input drives the model into `outOfDomain` (no prediction) — never into a
   silent default.
 -/
-import Mhd.Proofs.FramingDecide
-import Mhd.Proofs.FramingConn
+import Mhd.Proofs.FramingRefAgree
 
 namespace Mhd.C03
 open Mhd.Framing Mhd.Gen.Framing Mhd.Framing.Framer
@@ -69,6 +68,141 @@ theorem decideBody_te_cl_tolerated (lvl : Int) (http11 : Bool) (fs : List Field)
     decideBody lvl http11 fs = .chunked true :=
   decideBody_te_cl_lenient lvl http11 fs hh te v hte hc hcl hl
 
+/-! ## (2) the chunk decoder -/
+
+/-- **decode ∘ encode = id, consumed length = encoding length.**  ∀ level, ∀ body split into any
+    chunks (any sizes ≥ 1, any hex rendering of the size incl. leading zeros / either case, any
+    chunk extension, BWS where the level admits it, CRLF or — where the level admits it — bare-LF
+    line ends), ∀ bytes `rest` that follow: from the start of the body the automaton (i) hands the
+    application exactly the chunk data, in order (`uploadAll`, which is one coalesced upload event
+    carrying `cs.flatMap data`, see `chunked_upload_is_body`), (ii) consumes exactly
+    `encodeChunked cs last` — `rest` is left in the buffer untouched, so the trailer section / next
+    request starts at the right byte — and (iii) arrives at `bodyReceived`.  `Steps` = finitely many
+    iterations of the idle loop. -/
+theorem chunked_decode_encode (lvl : Int) (app : App) (cs : List Chunk) (hcs : ∀ c ∈ cs, ChunkOK lvl c)
+    (last : Chunk) (hl : LastOK lvl last) (rest : Bytes)
+    (s : St) (hs : s.state = .bodyReceiving) (hch : s.chunked = true) (hrem : s.remaining ≠ 0)
+    (hcur : s.cur = 0) (hoff : s.off = 0) (hbuf : s.buf = encodeChunked cs last ++ rest) :
+    Steps lvl app s { s with buf := rest, out := uploadAll cs s.out, state := .bodyReceived, remaining := 0 } :=
+  steps_chunked_body lvl app cs hcs last hl rest s hs hch hrem hcur hoff hbuf
+
+theorem chunked_upload_is_body (cs : List Chunk) (out : List Ev) (hne : cs ≠ []) :
+    uploadAll cs out = emitUpload (cs.flatMap Chunk.data) out :=
+  uploadAll_eq cs out hne
+
+/-- Non-vacuity: a lenient-level chunking with an extension, upper-case hex with a leading zero and a
+    bare-LF line end satisfies `ChunkOK`, and `Steps` really is about `idle`. -/
+example : ChunkOK 0 ⟨[48, 65], [], [59, 120], .lf, [1, 2, 3, 4, 5, 6, 7, 8, 9, 10], .crlf⟩ :=
+  { digitsNonempty := by decide, digitsHex := by decide, noOverflow := by decide, bwsWs := by decide,
+    bwsLevel := by decide, ext := Or.inr ⟨[120], rfl, by decide⟩, eol := Or.inr (by decide),
+    size := by decide, nonEmpty := by decide, dataEolOK := Or.inl rfl }
+
+/-- `Steps` is what the executable `idle` does. -/
+theorem steps_idle (lvl : Int) (app : App) (s t : St) (h : Steps lvl app s t) (wf : ChunkWF s) :
+    idle lvl app s = idle lvl app t :=
+  (idle_of_steps lvl app s t h wf).1
+
+/-- **split independence.**  ∀ level, ∀ application script, ∀ list of segments: feeding the segments
+    one by one leaves the connection in the same state — same handler calls with the same (coalesced)
+    upload bytes, same replies, same close decision, same bytes left in the buffer — as feeding their
+    concatenation in one piece.  Covers head, body (identity and chunked), trailers and pipelining. -/
+theorem split_independence (lvl : Int) (app : App) (segs : List Bytes) :
+    runSegs lvl app segs = runSegs lvl app [segs.flatten] :=
+  runSegs_flatten lvl app segs
+
+/-- … in its incremental form, from any state with ordered chunk counters. -/
+theorem feed_feed (lvl : Int) (app : App) (s : St) (wf : ChunkWF s) (a b : Bytes) :
+    feed lvl app (feed lvl app s a) b = feed lvl app s (a ++ b) :=
+  feed_append lvl app s wf a b
+
+example : runSegs 1 (fun _ => .cont 200 false) [[71, 69, 84], [32, 47, 32, 72, 84, 84, 80, 47, 49, 46, 48, 13], [10, 13, 10]]
+    = runSegs 1 (fun _ => .cont 200 false) [[71, 69, 84, 32, 47, 32, 72, 84, 84, 80, 47, 49, 46, 48, 13, 10, 13, 10]] :=
+  split_independence _ _ _
+
+/-- **malformed chunk syntax ⇒ error.**  ∀ level: a chunk-size line that does not start with a hex
+    digit (400); a chunk size that does not fit 64 bits (413); junk between size and line end (400);
+    chunk data not followed by CRLF — or a bare LF where the level forbids it (400). -/
+theorem malformed_chunk_rejected (lvl : Int) :
+    (∀ c rest, isHex c = false → chunkAct lvl 0 0 (c :: rest) = .err httpBadRequest) ∧
+    (∀ ds x, ds ≠ [] → (∀ d ∈ ds, isHex d = true) → uint64Max < hexValue ds →
+        chunkAct lvl 0 0 (ds ++ x) = .err httpContentTooLarge) ∧
+    (∀ ds c d r, ds ≠ [] → (∀ x ∈ ds, isHex x = true) → hexValue ds ≤ uint64Max → isHex c = false →
+        c ≠ SEMI → ¬ (bwsAboveLvl < lvl ∧ (c = SP ∨ c = HT)) → ¬ (c = CR ∧ d = LF) →
+        ¬ (lvl ≤ bareLfMaxLvl ∧ c = LF) → chunkAct lvl 0 0 (ds ++ c :: d :: r) = .err httpBadRequest) ∧
+    (∀ n c d r, n ≠ 0 → ¬ (c = CR ∧ d = LF) → ¬ (lvl ≤ bareLfMaxLvl ∧ c = LF) →
+        chunkAct lvl n n (c :: d :: r) = .err httpBadRequest) :=
+  ⟨fun c rest => chunkAct_nonhex lvl c rest,
+   fun ds x => chunkAct_overflow lvl ds x,
+   fun ds c d r => chunkAct_junk_after_size lvl ds c d r,
+   fun n c d r hn => chunkAct_missing_crlf lvl n hn c d r⟩
+
+/-- … and never a silent resync: the error reply drops the read buffer and leaves the connection in a
+    state from which, by `no_reparse`, no byte is ever parsed as a request again. -/
+theorem chunk_error_no_resync (lvl : Int) (s : St) (st : Nat) (hc : s.chunked = true) (wf : FlagsWF s)
+    (ha : chunkAct lvl s.cur s.off s.buf = .err st) :
+    bodyStep lvl s = some (errorReply s st) ∧ NoReparse (errorReply s st) ∧ (errorReply s st).buf = [] :=
+  bodyStep_err_noReparse lvl s st hc wf ha
+
+example : chunkAct 1 5 5 [10, 48, 13, 10] = .err 400 := by decide
+
+/-! ## (3) pipelined streams -/
+
+/-- **No desynchronisation on valid streams.**  ∀ level, ∀ list of valid generated requests
+    (`MsgOK`: canonical head — `parseHead` accepts it —, framing fields for which `decideBody` gives
+    the body kind that was rendered — see `decideBody_valid` —, identity body of the announced length
+    or any admissible chunking plus a canonical trailer section, no `close`), ∀ application that reads
+    every body and replies at the final call, ∀ segmentation of the concatenated stream: the handler is
+    presented exactly these requests — methods, targets, body bytes, in order — the connection ends
+    in `init` with an empty buffer, ready for request number `ms.length`. -/
+theorem pipeline_no_desync (lvl : Int) (app : App) (ms : List Msg) (segs : List Bytes)
+    (hok : ∀ m ∈ ms, MsgOK lvl m) (happ : ∀ j, j < ms.length → ∃ st, app j = .cont st false)
+    (hsegs : segs.flatten = ms.flatMap Msg.bytes) :
+    framesOf (runSegs lvl app segs) = ms.map Msg.seen ∧
+    (runSegs lvl app segs).state = .init ∧ (runSegs lvl app segs).buf = [] ∧
+    (runSegs lvl app segs).nreq = ms.length := by
+  have h := pipeline_frames lvl app ms segs hok happ hsegs
+  refine ⟨h.1, ?_, ?_, ?_⟩ <;> rw [h.2] <;> rfl
+
+/-- **`frames (impl stream) = Framer.frames stream`.**  ∀ level, ∀ list of requests whose framing
+    fields satisfy RFC 9112 §6.3 (`MsgStrict`: no TE and no CL, or one valid CL of the body's length,
+    or TE exactly `chunked` on HTTP/1.1 with no CL; canonical head; strict chunk rendering: CRLF only,
+    no BWS, any chunk sizes / extensions free of CR and LF), on which the Host rule does not fire,
+    ∀ segmentation: the requests the model presents to the handler are exactly the frames of the
+    strict reference framer `Framer.frames` (≈ 40 lines in `Mhd.Model.FramingRef`), which consumes
+    the whole stream. -/
+theorem frames_agree_reference (lvl : Int) (app : App) (ms : List Msg) (segs : List Bytes)
+    (hms : ∀ m ∈ ms, MsgStrict m) (hh : ∀ m ∈ ms, HostOK lvl m.head.http11 m.head.fields)
+    (happ : ∀ j, j < ms.length → ∃ st, app j = .cont st false)
+    (hsegs : segs.flatten = ms.flatMap Msg.bytes) :
+    framesOf (runSegs lvl app segs) = (Framer.frames lvl segs.flatten).1.map Frame.seen ∧
+    (Framer.frames lvl segs.flatten).2 = .incomplete 0 :=
+  frames_agree lvl app ms segs hms hh happ hsegs
+
+/-- Non-vacuity of `MsgStrict`: a chunked POST with one 3-byte chunk carrying an extension. -/
+example : MsgStrict ⟨[80, 79, 83, 84, 32, 47, 32, 72, 84, 84, 80, 47, 49, 46, 49, 13, 10, 72, 111, 115, 116, 58, 32, 104, 13, 10,
+                      84, 114, 97, 110, 115, 102, 101, 114, 45, 69, 110, 99, 111, 100, 105, 110, 103, 58, 32, 67, 72, 85, 78, 75, 69, 68, 13, 10, 13, 10],
+    ⟨[80, 79, 83, 84], [47], true, [⟨[72, 111, 115, 116], [104]⟩, ⟨hdrTransferEncoding, [67, 72, 85, 78, 75, 69, 68]⟩]⟩,
+    .chunked [⟨[51], [], [59, 120], .crlf, [97, 98, 99], .crlf⟩] ⟨[48], [], [], .crlf, [], .crlf⟩ [13, 10]⟩ :=
+  { canonical := by decide
+    framing := ⟨⟨[67, 72, 85, 78, 75, 69, 68], by decide, by decide⟩, by decide, rfl,
+      fun c hc => by
+        simp only [List.mem_singleton] at hc; subst hc
+        exact { digitsNonempty := by decide, digitsHex := by decide, noOverflow := by decide, noBws := rfl,
+                ext := Or.inr ⟨[120], rfl, by decide⟩, eol := rfl, size := by decide, nonEmpty := by decide, dataEol := rfl },
+      { digitsNonempty := by decide, digitsHex := by decide, noOverflow := by decide, noBws := rfl,
+        ext := Or.inl rfl, eol := rfl, zero := by decide },
+      ⟨[], by decide⟩⟩
+    noClose := by decide
+    keep := Or.inl rfl }
+
+/-- The explicit domain restriction is decidable. -/
+example : CanonicalHead [71, 69, 84, 32, 47, 32, 72, 84, 84, 80, 47, 49, 46, 48, 13, 10, 13, 10] := by decide
+
+/-- Non-vacuity of `MsgOK`: `GET / HTTP/1.1` + `Host: h`, no body. -/
+example : MsgOK 3 ⟨[71, 69, 84, 32, 47, 32, 72, 84, 84, 80, 47, 49, 46, 49, 13, 10, 72, 111, 115, 116, 58, 32, 104, 13, 10, 13, 10],
+                  ⟨[71, 69, 84], [47], true, [⟨[72, 111, 115, 116], [104]⟩]⟩, .none⟩ :=
+  { canonical := by decide, framing := Or.inl (by decide), noClose := by decide, keep := Or.inl rfl }
+
 /-! ## (4) the key safety theorem on the connection automaton -/
 
 /-- Once `discard_request ∨ stop_with_error ∨ keepalive = MUST_CLOSE` ("reply carries close")
@@ -106,7 +240,13 @@ theorem no_reparse_run (lvl : Int) (app : App) (segs₁ segs₂ : List Bytes)
     unfold runSegs; rw [List.foldl_append]; exact reach_foldl_feed lvl app segs₂ _
   exact (no_reparse lvl _ _ h2 (flagsWF_reachable lvl _ h1) ht hs).1
 
-/-- Non-vacuity: an early reply really produces a tainted non-`init` state from which bytes keep coming. -/
+/-- Non-vacuity: Transfer-Encoding + Content-Length at a lenient level leaves the connection, in the
+    middle of the body, in a tainted state other than `init` (the hypotheses of `no_reparse`), and an
+    early reply ends in `closed`. -/
+example :
+    (runSegs 0 (fun _ => .cont 200 false) [[80, 79, 83, 84, 32, 47, 32, 72, 84, 84, 80, 47, 49, 46, 49, 13, 10, 72, 111, 115, 116, 58, 32, 104, 13, 10, 84, 114, 97, 110, 115, 102, 101, 114, 45, 69, 110, 99, 111, 100, 105, 110, 103, 58, 32, 99, 104, 117, 110, 107, 101, 100, 13, 10, 67, 111, 110, 116, 101, 110, 116, 45, 76, 101, 110, 103, 116, 104, 58, 32, 51, 13, 10, 13, 10, 53, 13, 10, 97, 98]]).keepalive = .mustClose ∧
+    (runSegs 0 (fun _ => .cont 200 false) [[80, 79, 83, 84, 32, 47, 32, 72, 84, 84, 80, 47, 49, 46, 49, 13, 10, 72, 111, 115, 116, 58, 32, 104, 13, 10, 84, 114, 97, 110, 115, 102, 101, 114, 45, 69, 110, 99, 111, 100, 105, 110, 103, 58, 32, 99, 104, 117, 110, 107, 101, 100, 13, 10, 67, 111, 110, 116, 101, 110, 116, 45, 76, 101, 110, 103, 116, 104, 58, 32, 51, 13, 10, 13, 10, 53, 13, 10, 97, 98]]).state = .bodyReceiving := by decide
+
 example :
     (runSegs 0 (fun _ => .early 200 false)
       [[71, 69, 84, 32, 47, 32, 72, 84, 84, 80, 47, 49, 46, 48, 13, 10, 13, 10]]).discard = true ∧
